@@ -522,3 +522,13 @@ Definition ka : key := [97].
 Definition doc1 : jv := JDict [(ka, JList [JNum 1; JNum 2]); ([100], JDict [([120], JNum 1)])].
 Definition ops_tuple : list op :=
   [OAct [KKey ka] (AL (LExtend false [JList [JNum 9]])); OCommit; OAct [KKey ka; KIdx (-1)] (AL (LAppend (JNum 10)))].
+
+(* ------------------------------------------------------------------ a value assigned through the Json wrapper: obj.j = Json(v).
+   JsonConverter.validate hands the wrapper to TrackedValue.make, which leaves anything but dict / list alone: the attribute value is the
+   wrapper object and the document inside it is a tree of plain containers (no tag anywhere). *)
+Definition assigned_through_wrapper (v : jv) : state := {| root := wrap None v; dirty := false; dbval := canon v |}.
+
+Lemma json_wrapper_lost :
+  let st := run wr_gen [OAct [KKey ka] (AL (LAppend (JNum 3)))] (assigned_through_wrapper doc1) in
+  dirty st = false /\ jv_eqb (dbval (commit st)) (canon (untrack (root st))) = false.
+Proof. vm_compute. split; reflexivity. Qed.
